@@ -330,10 +330,10 @@ def registry_names():
 
 def c13_reject(case: int, api: int, interactive: int) -> bool:
   """
-  pre: 0 <= case < 9 and 0 <= api < 3 and 0 <= interactive < 3
+  pre: 0 <= case < 11 and 0 <= api < 3 and 0 <= interactive < 3
   """
   world.fresh()
-  case = rt.pick(case, 9)
+  case = rt.pick(case, 11)
   api = rt.pick(api, 3)
   interactive = rt.pick(interactive, 3)   # 0 no, 1 inside interactive_mode, 2 after a block that raised
   rt.sig(('reject', case, api, interactive), nontrivial=True)
@@ -353,6 +353,8 @@ def c13_reject(case: int, api: int, interactive: int) -> bool:
 
     try:
       reg(first)
+      if case in (8, 9):
+        _HOLD[0] = _cls_with_method()      # its method registers itself here, before the snapshot
       before = registry_names()
       if interactive == 2:
         try:
@@ -377,9 +379,17 @@ def c13_reject(case: int, api: int, interactive: int) -> bool:
         if gin.get_configurable('vw13.c13r')() != ('second', 1):
           return rt.no('re-registered version not used')
         return after == before
-      if case == 8 and interactive == 1:
+      if case in (8, 9):
+        if api == 0:
+          return True        # @gin.configurable does not re-key registered methods
+        if exc is None or not isinstance(exc, ValueError):
+          return rt.no('unknown allow/deny name must be rejected')
+        if after != before:
+          return rt.no('rejected class registration changed the registry: %r' % sorted(after ^ before))
+        return True
+      if case == 10 and interactive == 1:
         return exc is None
-      if case == 8:
+      if case == 10:
         if exc is None or not isinstance(exc, ValueError):
           return rt.no('an equal-but-different object under an existing name must be rejected')
         if gin.get_configurable('vw13.c13eq')() != ('eq', 1, 1):
@@ -397,11 +407,29 @@ def c13_reject(case: int, api: int, interactive: int) -> bool:
       return True
     finally:
       for n in list(registry_names()):
-        if n.startswith('vw13.') or n in ('c13r', 'bad-mod.c13x', 'c13eq') or n.startswith('1bad') or '..' in n:
+        if n.startswith('vw13.') or n in ('c13r', 'bad-mod.c13x', 'c13eq') or 'c13meth' in n or n.startswith('1bad') or '..' in n:
           gc._REGISTRY.pop(n)
       gc._INVERSE_REGISTRY.pop(first, None)
       gc._INVERSE_REGISTRY.pop(second, None)
+      for o_ in list(gc._INVERSE_REGISTRY):
+        if getattr(o_, '__name__', '') in ('c13meth', 'C13WithMethod'):
+          del gc._INVERSE_REGISTRY[o_]
+      gc._RENAMED_SELECTORS.clear()
       gc._INTERACTIVE_MODE = False
+
+
+def _cls_with_method():
+  class C13WithMethod:
+    def __init__(self, a=1):
+      self.a = a
+
+    @gin.register
+    def c13meth(self, m=0):
+      return ('c13meth', m)
+  return C13WithMethod
+
+
+_HOLD = [None]
 
 
 class EqCallable:
@@ -430,6 +458,8 @@ CASES = [
     lambda reg, f: reg(f, name='c13x', deny=['nope']),       # 5 unknown name in denylist
     lambda reg, f: reg(f, name='c13x', allow=['a'], deny=['a']),  # 6 both lists
     lambda reg, f: None,                                     # 7 placeholder (same object again, below)
+    lambda reg, f: reg(_HOLD[0], name='c13cls', allow=['nope']),   # 8 class with a registered method,
+    lambda reg, f: reg(_HOLD[0], name='c13cls', deny=['nope']),    # 9 unknown allow / deny name
     lambda reg, f: (reg(EqCallable('same', 1), name='c13eq'),        # 8 a DIFFERENT object that merely
                     reg(EqCallable('same', 2), name='c13eq')),       #   compares equal to the registered one
 ]
@@ -456,9 +486,9 @@ HARNESSES = {
         anchors=['gin.config:_make_configurable', 'gin.config:_validate_parameters', 'gin.config:interactive_mode'],
         smoke=[dict(case=0, api=1, interactive=0), dict(case=0, api=0, interactive=1),
                dict(case=4, api=2, interactive=2)],
-        tiers={'quick': dict(split=dict(case=list(range(9))), budget_s=100),
-               'thorough': dict(split=dict(case=list(range(9)), api=[0, 1, 2]), budget_s=300)},
-        bounds='8 rejected registrations (incl. a different callable object that compares equal to the registered one; (different object under an existing full name, invalid name x2, invalid module, '
+        tiers={'quick': dict(split=dict(case=list(range(11))), budget_s=100),
+               'thorough': dict(split=dict(case=list(range(11)), api=[0, 1, 2]), budget_s=300)},
+        bounds='10 rejected registrations (incl. a class with a separately registered method and an unknown allow/deny name, (incl. a different callable object that compares equal to the registered one; (different object under an existing full name, invalid name x2, invalid module, '
                'unknown allowlist / denylist name, both lists) x 3 APIs x {outside, inside interactive mode, after an '
                'interactive block that raised}'),
 }
